@@ -22,6 +22,18 @@ web_common/web_common/web_common.py, batch/batch/utils.py, gear/gear/database.py
      row.  The route handlers pass int(request.match_info['batch_id']) and userdata['username'] (or userdata itself) to those
      helpers; create_batch / create_batch_fast work on the id _create_batch returns, and _create_batch.insert inserts a batch
      only for the caller, into a billing project the caller belongs to.
+ (2c) BILLING-PROJECT LISTINGS.  get_billing_projects, get_billing_project, ui_get_billing_limits (every handler open to all
+     authenticated users that calls a listing helper of batch/utils.py), executed up to that call for the int / bool / null
+     representation of is_developer: the helper is asked without a user name only for a developer or the auth service - the name
+     is EXACTLY 'auth'; `x in 'auth'` is modelled as the substring test it is - and otherwise with the caller's own name.
+ (2d) READS OF BATCH-SCOPED HANDLERS.  _get_job_record answers only the job (batch_id, job_id) it was asked for (the WHERE of the
+     real statement pins jobs.batch_id / jobs.job_id to placeholders that the real argument tuple binds to the parameters);
+     get_job_container_log with the real bodies of _get_job_container_log / has_resource_available / attempt_id_from_spec executed
+     in place: the worker and the log store are only asked for the checked batch, the job of the request path and a container
+     that job_tasks_from_spec(record) answers (which answers only 'input' / 'main' / 'output'); _get_job_log by AST;
+     _query_batch_jobs_for_billing: on every path the listing statement (real f-string, real condition list of that path) pins
+     jobs.batch_id to the checked id, the follow-up statements pin batch_id to it as well; every caller chain of these helpers
+     starts at the batch_id parameter of a batch-scoped route handler and never rebinds it.
  (3) ROUTE TABLE (exhaustive over the AST).  Every `@routes.<verb>(path)` handler of front_end.py, plus every registration made
      outside the table in run(), is classified by the data-driven POLICY below (derived from the property text); each route
      falls in exactly one class and carries the protection of its class, with nothing but transparent decorators above it; a
@@ -242,7 +254,8 @@ def developers_or_auth_only(dev_repr):
         setup=_inner_setup(dev_repr),
         requires=INNER_REQUIRES,
         ghost_init=dict(GHOSTS),
-        consts={'HANDLER_RESPONSE': z3.Const('handler_response', U), '__bool_identity__': True},
+        # userdata['username'] is text (gear.auth.UserData): `username in '<literal>'` is then the substring test it is in Python
+        consts={'HANDLER_RESPONSE': z3.Const('handler_response', U), '__bool_identity__': True, '__text_operands__': True},
         calls={'fun': _handler_model([CK_REQUEST, CK_ACTIVE, CK_DEV_OR_AUTH])},
         ensures=NORMAL,
         on_raise=ON_RAISE,
@@ -1063,6 +1076,516 @@ def owner_filters(ctx):
 
 
 # ---------------------------------------------------------------------------------------------------------------------
+# (2c) billing-project listings.  "only developers or the auth service can administer billing projects" and "a user can read
+# ... billing only if they belong to the billing project": the listing helpers of batch/utils.py answer EVERY project (with
+# its members and accrued cost) when asked without a user name, so the handlers that are open to every authenticated user may
+# ask without a name only for a developer or the auth service, and otherwise must ask for the caller's own name.
+
+LISTING_HELPERS = ('query_billing_projects_with_cost', 'query_billing_projects_without_cost')
+
+
+def _listing_callers(tree):
+    """{function name: [call nodes]} for every module-level function of front_end.py that calls a listing helper"""
+    out = {}
+    for fn in tree.body:
+        if isinstance(fn, (pyast.FunctionDef, pyast.AsyncFunctionDef)):
+            cs = [n for n in pyast.walk(fn) if isinstance(n, pyast.Call) and isinstance(n.func, pyast.Name) and n.func.id in LISTING_HELPERS]
+            if cs:
+                out[fn.name] = cs
+    return out
+
+
+def _stmt_prefix_through(fn, call):
+    """fragment (first statement text, count) of fn's top-level statements up to and including the one that contains `call`"""
+    body = [st for st in fn.body if not (isinstance(st, pyast.Expr) and isinstance(st.value, pyast.Constant))]
+    k = next((i for i, st in enumerate(body) if any(n is call for n in pyast.walk(st))), None)
+    if k is None or not body:
+        raise core.Undecided('anchor-moved: listing call of %s is not in a top-level statement' % fn.name)
+    return (pyvc._header_text(body[0]), k + 1)
+
+
+def billing_listing_contract(name, frag, dev_repr):
+    def setup(eng, st):
+        st.env['request'] = _request_for_handlers(('billing_project',))
+        st.env['userdata'] = st.env['USERDATA'] = _userdata_model(dev_repr)
+        st.assume(z3.Not(eng.is_none(st.env['USERDATA'].fields['username'])))  # gear.auth.UserData: username is text (assumption recorded in build())
+
+    def listing(eng, st, args, kw, node):
+        ud = st.env['USERDATA']
+        eng.oblige(st, 'listing/asks-the-application-database', len(args) >= 1 and isinstance(args[0], z3.ExprRef) and args[0].eq(z3.Const('app_db', U)), line=node.lineno)
+        extra = [k for k in kw if k not in ('user', 'billing_project')]
+        if len(args) > 3 or extra or (len(args) > 1 and 'user' in kw):
+            raise core.Undecided('%s: listing helper called with arguments the contract does not know' % name)
+        u = args[1] if len(args) > 1 else kw.get('user')
+        privileged = z3.Or(_truthy_dev(eng, ud), eng.equal(ud.fields['username'], 'auth'))
+        eng.oblige(st, 'listing/without-a-user-name-only-for-a-developer-or-the-auth-service', z3.Or(privileged, z3.Not(eng.is_none(u))), line=node.lineno)
+        eng.oblige(st, 'listing/otherwise-restricted-to-the-callers-own-name', z3.Or(privileged, eng.equal(u, ud.fields['username'])), line=node.lineno)
+        eng.oblige(st, 'listing/asked-at-most-once', st.env['n_listings'] == 0, line=node.lineno)
+        restricted = z3.Not(eng.is_none(u))
+
+        def done(s):
+            s.env['n_listings'] = s.env['n_listings'] + 1
+            s.env['RESTRICTED'] = restricted
+
+        raise Fork(node, [('listing-answers', None, 'value', z3.Const(pyvc.fresh_name('billing_projects'), U), done), ('listing-fails', None, 'raise', SExc(term=z3.Const(pyvc.fresh_name('db_exc'), U)), None)])
+
+    return Contract(
+        path=FE, qualname=name, label='%s[is_developer:%s]' % (name, dev_repr), fragment=frag,
+        setup=setup,
+        requires=INNER_REQUIRES,
+        ghost_init={'n_listings': '0', 'RESTRICTED': 'False'},
+        consts={'__bool_identity__': True, '__text_operands__': True},
+        calls={h: listing for h in LISTING_HELPERS},
+        ensures=[('the-listing-helper-was-asked', 'n_listings == 1')],
+        raises={},
+        canaries=[('the-listing-is-never-restricted', 'not RESTRICTED')] + ([('the-listing-is-always-restricted', 'RESTRICTED')] if dev_repr != 'null' else []),
+    )
+
+
+def billing_listings(ctx):
+    tree = pyast.parse(core.read_repo(FE))
+    callers = _listing_callers(tree)
+    routes = {fn.name: (v, p, fn) for v, p, fn in enumerate_routes(tree)}
+    under = []
+    for name, calls in sorted(callers.items()):
+        prot = protection_of(routes[name][2])[0] if name in routes else None
+        if prot in ('dev', 'dev_or_auth'):
+            continue  # reached only by developers / the auth service (wrapper contract + route table): any listing is theirs to see
+        ctx.add(core.decided('billing-listing/%s/asks-the-listing-helper-in-one-place' % name, len(calls) == 1, '%d calls' % len(calls), kind='scan'))
+        if len(calls) != 1:
+            continue
+        fn = pyvc.find_function(tree, name)
+        frag = _stmt_prefix_through(fn, calls[0])
+        for r in DEV_REPRS:
+            c = billing_listing_contract(name, frag, r)
+            c.raises.setdefault('*', True)
+            e = pyvc.Engine(ctx, c)
+            e.replayer = _native('billing-listing')
+            e.run()
+            _strict(ctx, e, e.label)
+            _emit_canaries(ctx, e)
+        under.append(name)
+    ctx.extra['billing_listing_handlers_under_contract'] = under
+    ctx.add(core.decided('billing-listing/vacuity/some-handler-open-to-every-user-lists-billing-projects', len(under) >= 2, repr(under), kind='vacuity'))
+    # closed world: the helpers are only ever called (never passed around), and only from module-level functions (the ones above)
+    refs = [n for n in pyast.walk(tree) if isinstance(n, pyast.Name) and n.id in LISTING_HELPERS and isinstance(n.ctx, pyast.Load)]
+    ncalls = sum(len(v) for v in callers.values())
+    ctx.add(core.decided('billing-listing/closed-world/the-listing-helpers-are-only-called-from-functions-under-contract-or-developer-routes', len(refs) == ncalls and all(n in routes for n in callers), '%d references, %d calls in %r' % (len(refs), ncalls, sorted(callers)), kind='scan'))
+
+
+# ---------------------------------------------------------------------------------------------------------------------
+# (2d) reads inside batch-scoped handlers: "a user can read ... a batch (and its jobs, groups, LOGS and BILLING) only if they
+# belong to the batch's billing project".  billing_project_users_only checked ONE batch id; what the handler then reads must be
+# keyed by that id: a query answers only rows of that batch (its WHERE has a top-level conjunct `<key> = %s` whose placeholder
+# is bound - by the real argument tuple, evaluated symbolically - to the checked id), and a job log is fetched from the worker /
+# the log store only for that batch, the job of the request and a container that is one of the job's own tasks.
+
+
+def _conjuncts(e, out):
+    if isinstance(e, A.BinOp) and e.op.upper() == 'AND':
+        _conjuncts(e.left, out)
+        _conjuncts(e.right, out)
+    elif e is not None:
+        out.append(e)
+    return out
+
+
+def _pinned(sel):
+    """{'table.column' | 'column': placeholder index} for every top-level conjunct `name = %s` of the WHERE of a query block: the
+    rows the block answers all carry the bound value in that column"""
+    out = {}
+    if not isinstance(sel, A.Select) or isinstance(sel.where, A.Hole):
+        return out
+    for c in _conjuncts(sel.where, []):
+        if isinstance(c, A.BinOp) and c.op == '=':
+            for a, b in ((c.left, c.right), (c.right, c.left)):
+                if isinstance(a, A.Name) and isinstance(b, A.Param):
+                    out.setdefault('.'.join(a.lower), b.index)
+    return out
+
+
+def _select_of(sql, what):
+    try:
+        stn = sqlparse.parse_statement(sql)
+    except Exception as ex:  # pylint: disable=broad-except
+        raise core.Undecided('%s: statement not parsed: %s' % (what, ex))
+    if not isinstance(stn, A.SelectStmt) or not isinstance(stn.select, A.Select):
+        raise core.Undecided('%s: not a plain SELECT' % what)
+    return stn.select
+
+
+def _concrete_list(v, what):
+    """the elements (z3 terms) of a list whose length is a numeral on this path"""
+    if isinstance(v, tuple):
+        return list(v)
+    if isinstance(v, pyvc.SList):
+        n = z3.simplify(v.len) if isinstance(v.len, z3.ExprRef) else z3.IntVal(v.len)
+        if not z3.is_int_value(n):
+            raise core.Undecided('%s: list of symbolic length' % what)
+        return [pyvc.from_z3(z3.simplify(z3.Select(v.arr, i)), v.et) for i in range(n.as_long())]
+    raise core.Undecided('%s: not a list' % what)
+
+
+def _concrete_text(v, what):
+    if isinstance(v, str):
+        return v
+    if isinstance(v, z3.ExprRef):
+        v = z3.simplify(v)
+        if z3.is_string_value(v):
+            return v.as_string()
+    raise core.Undecided('%s: text is not determined on this path' % what)
+
+
+def job_record_contract():
+    """_get_job_record(app, batch_id, job_id): the one row it answers is a job of THAT batch with THAT job id"""
+
+    def setup(eng, st):
+        st.env['app'] = _app_model()
+
+    def read(eng, st, args, kw, node):
+        sel = _select_of(_sql_text(node), '_get_job_record')
+        pins = _pinned(sel)
+        pyargs = args[2] if len(args) > 2 else ()
+        pyargs = pyargs if isinstance(pyargs, tuple) else (pyargs,)
+        eng.oblige(st, 'query/asks-the-application-database', isinstance(args[0], z3.ExprRef) and args[0].eq(z3.Const('app_db', U)), line=node.lineno)
+        for key, want, nm in (('jobs.batch_id', st.env['batch_id'], 'answers-only-a-job-of-the-batch-it-was-asked-for'), ('jobs.job_id', st.env['job_id'], 'answers-only-the-job-it-was-asked-for')):
+            i_ = pins.get(key)
+            eng.oblige(st, 'query/' + nm, eng.equal(pyargs[i_], want) if i_ is not None and i_ < len(pyargs) else False, line=node.lineno)
+        eng.oblige(st, 'query/asked-once', st.env['n_reads'] == 0, line=node.lineno)
+        row = SRecord('dict', {'__tag__': 'the-record'})
+
+        def got(s):
+            s.env['n_reads'] = s.env['n_reads'] + 1
+            s.env['ROW'] = True
+
+        raise Fork(node, [('row', None, 'value', row, got), ('no-row', None, 'value', None, lambda s: s.env.__setitem__('n_reads', s.env['n_reads'] + 1)), ('statement-fails', None, 'raise', SExc(term=z3.Const(pyvc.fresh_name('db_exc'), U)), None)])
+
+    return Contract(
+        path=FE, qualname='_get_job_record', types={'app': 'U', 'batch_id': 'int', 'job_id': 'int'}, setup=setup,
+        ghost_init={'n_reads': '0', 'ROW': 'False'},
+        calls={'.select_and_fetchone': read, 'is_the_record': lambda eng, st, args, kw, node: z3.BoolVal(_is(args[0], 'the-record'))},
+        ensures=[('returns-the-row-of-that-query', 'n_reads == 1 and ROW and is_the_record(result)')],
+        raises={'HTTPNotFound': 'n_reads == 1 and not ROW'},
+        canaries=[('no-job-is-ever-found', 'False')],
+    )
+
+
+TASK_NAMES = ('input', 'main', 'output')  # the containers of a job; plain names (no separator, no dot segment)
+
+
+def job_tasks_contract():
+    """job_tasks_from_spec(record): only ever answers the three container names"""
+
+    def setup(eng, st):
+        st.env['record'] = SRecord('dict', {'format_version': z3.Const('rec_format_version', U), 'spec': z3.Const('rec_spec', U)})
+
+    def flag(eng, st, args, kw, node):
+        return z3.Bool(pyvc.fresh_name('spec_has_files'))
+
+    return Contract(
+        path=FE, qualname='job_tasks_from_spec', setup=setup, types={'result': 'List[U]'}, opaque_methods=True,  # anything else it asks of the spec is havocked and reported by the frame obligation
+        calls={'BatchFormatVersion': _fresh_u('format'), 'json.loads': _fresh_u('spec'), 'batch_format_version.get_spec_has_input_files': flag, 'batch_format_version.get_spec_has_output_files': flag},
+        ensures=[('answers-only-the-container-names-of-a-job', "all(t in ('input', 'main', 'output') for t in result)"), ('a-job-always-has-its-main-container', "'main' in result")],
+        raises={},
+        canaries=[('never-answers-an-input-container', "not ('input' in result)")],
+    )
+
+
+def _free_names(fn):
+    params = {a.arg for a in fn.args.posonlyargs + fn.args.args + fn.args.kwonlyargs}
+    stored = {n.id for n in pyast.walk(fn) if isinstance(n, pyast.Name) and isinstance(n.ctx, (pyast.Store, pyast.Del))}
+    return {n.id for n in pyast.walk(fn) if isinstance(n, pyast.Name) and isinstance(n.ctx, pyast.Load)} - params - stored
+
+
+def container_log_contract(tree):
+    """get_job_container_log(request, batch_id) with the REAL body of _get_job_container_log (and has_resource_available,
+    attempt_id_from_spec) executed in place: wherever the membership test sits, a log is only fetched for the checked batch, the
+    job of the request path and a container that job_tasks_from_spec(record) answers"""
+    BATCH = z3.Int('checked_batch_id')
+    JOB = lambda eng: eng.uf('int_of_text', ['U'], 'int')(z3.Const('path_job_id', U))  # noqa: E731
+    TASKS = pyvc.fresh_value(('map', 'U', 'bool'), 'tasks_of_the_record')
+    record = SRecord('dict', {'state': z3.Const('rec_state', U), 'ip_address': z3.Const('rec_ip', U), 'format_version': z3.Const('rec_format_version', U), 'spec': z3.Const('rec_spec', U),
+                              'attempt_id': z3.Const('rec_attempt', U), 'last_cancelled_attempt_id': z3.Const('rec_last_cancelled', U), '__tag__': 'the-record'})
+    inlined = {}
+    for nm in ('_get_job_container_log', 'has_resource_available', 'attempt_id_from_spec'):
+        f = pyvc.find_function(tree, nm)
+        inlined[nm] = f
+
+    def setup(eng, st):
+        r = _request_for_handlers(('job_id', 'container'))
+        r.fields['app'].fields['client_session'] = z3.Const('app_client_session', U)
+        st.env['request'] = r
+        st.env['batch_id'] = BATCH
+        st.env['CommonAiohttpAppKeys'] = SRecord('namespace', {'CLIENT_SESSION': 'client_session'})
+        local = {n.id for n in pyast.walk(eng.fn) if isinstance(n, pyast.Name) and isinstance(n.ctx, pyast.Store)} | {a.arg for a in eng.fn.args.args}
+        for nm, f in inlined.items():
+            clash = _free_names(f) & local
+            if clash:
+                raise core.Undecided('%s executed in place would see locals %r of its caller' % (nm, sorted(clash)))
+
+    def inline(nm):
+        return lambda eng, st, args, kw, node: eng.call_localdef(inlined[nm], node, st, allow_async=True)
+
+    def get_record(eng, st, args, kw, node):
+        ok = len(args) == 3 and _is(args[0], 'the-app')
+        eng.oblige(st, 'record/read-for-the-batch-that-was-checked', eng.equal(args[1], BATCH) if ok else False, line=node.lineno)
+        eng.oblige(st, 'record/read-for-the-job-of-the-request-path', eng.equal(args[2], JOB(eng)) if ok else False, line=node.lineno)
+        raise Fork(node, [('record-found', None, 'value', record, lambda s: s.env.__setitem__('n_records', s.env['n_records'] + 1)), ('no-such-job', None, 'raise', SExc('HTTPNotFound'), None), ('statement-fails', None, 'raise', SExc(term=z3.Const(pyvc.fresh_name('db_exc'), U)), None)])
+
+    def tasks(eng, st, args, kw, node):
+        eng.oblige(st, 'tasks/asked-of-the-record-that-was-read', len(args) == 1 and _is(args[0], 'the-record'), line=node.lineno)
+        return TASKS
+
+    def sink(name, b_, j_, c_):
+        def model(eng, st, args, kw, node):
+            n = len(args)
+            eng.oblige(st, '%s/names-the-batch-that-was-checked' % name, eng.equal(args[b_], BATCH) if n > b_ else False, line=node.lineno)
+            eng.oblige(st, '%s/names-the-job-of-the-request-path' % name, eng.equal(args[j_], JOB(eng)) if n > j_ else False, line=node.lineno)
+            eng.oblige(st, '%s/names-a-container-of-that-job' % name, z3.Select(TASKS.has, pyvc.to_z3(args[c_], 'U')) if n > c_ else False, line=node.lineno)
+            eng.oblige(st, '%s/reached-only-with-the-record-of-that-job' % name, st.env['n_records'] == 1, line=node.lineno)
+            raise Fork(node, [('log-read', None, 'value', z3.Const(pyvc.fresh_name('log_bytes'), U), lambda s: s.env.__setitem__('n_logs', s.env['n_logs'] + 1)), ('log-read-fails', None, 'raise', SExc(term=z3.Const(pyvc.fresh_name('io_exc'), U)), None)])
+
+        return model
+
+    calls = {'int': _int_model, '_get_job_record': get_record, 'job_tasks_from_spec': tasks, 'web.Response': _fresh_u('response'), 'BatchFormatVersion': _fresh_u('format'),
+             '_get_job_container_log_from_worker': sink('worker-log', 1, 2, 3), '_read_job_container_log_from_cloud_storage': sink('stored-log', 2, 3, 4)}
+    calls.update({nm: inline(nm) for nm in inlined})
+    gl = module_constants_of('batch/batch/globals.py')
+    return Contract(
+        path=FE, qualname='get_job_container_log', label='get_job_container_log[with _get_job_container_log in place]', setup=setup,
+        ghost_init={'n_records': '0', 'n_logs': '0'},
+        consts={'complete_states': gl.get('complete_states', ())},
+        calls=calls,
+        ensures=[('answers-at-most-one-log', 'n_logs <= 1')],
+        raises={'HTTPNotFound': True, 'HTTPBadRequest': 'n_logs == 0', 'ValueError': 'n_logs == 0', 'AssertionError': 'n_logs == 0'},
+        canaries=[('no-log-is-ever-read', 'n_logs == 0')],
+    )
+
+
+def module_constants_of(path):
+    return pyvc.module_constants(pyast.parse(core.read_repo(path)))
+
+
+def _calls_of(tree, name):
+    """[(enclosing module-level function, call node)] for every call of the module-level function `name`"""
+    out = []
+    for fn in tree.body:
+        if isinstance(fn, (pyast.FunctionDef, pyast.AsyncFunctionDef)):
+            out += [(fn, n) for n in pyast.walk(fn) if isinstance(n, pyast.Call) and isinstance(n.func, pyast.Name) and n.func.id == name]
+    return out
+
+
+def _only_called(tree, name):
+    refs = [n for n in pyast.walk(tree) if isinstance(n, pyast.Name) and n.id == name and isinstance(n.ctx, pyast.Load)]
+    return len(refs) == len(_calls_of(tree, name))
+
+
+def _arg_names(call):
+    return [a.id if isinstance(a, pyast.Name) else pyast.unparse(a) for a in call.args] + ['%s=%s' % (k.arg, pyast.unparse(k.value)) for k in call.keywords]
+
+
+def _never_rebound(fn, names):
+    return not [n for n in pyast.walk(fn) if isinstance(n, pyast.Name) and n.id in names and isinstance(n.ctx, (pyast.Store, pyast.Del))]
+
+
+def billing_jobs_query_contract(tree):
+    """_query_batch_jobs_for_billing(request, batch_id), from its first statement up to the first database statement: on every
+    path the statement text (the real f-string with the real list of conditions of that path) pins jobs.batch_id to a
+    placeholder that the real argument tuple binds to the batch id that was checked"""
+    fn = pyvc.find_function(tree, '_query_batch_jobs_for_billing')
+    methods = _db_methods()
+    body = [st for st in fn.body if not (isinstance(st, pyast.Expr) and isinstance(st.value, pyast.Constant))]
+    k = next((i for i, st in enumerate(body) if _db_calls(st, methods) or any(isinstance(n, (pyast.ListComp, pyast.AsyncFor)) and _db_calls_deep(n, methods) for n in pyast.walk(st))), None)
+    if not k:
+        raise core.Undecided('anchor-moved: _query_batch_jobs_for_billing has no database statement after a prefix')
+    calls = _db_calls_deep(body[k], methods)
+    if len(calls) != 1 or len(calls[0].args) < 2:
+        raise core.Undecided('_query_batch_jobs_for_billing: first database statement not understood')
+    call = calls[0]
+    template, arg_tuple = _sql_template(fn, call.args[0]), call.args[1]
+
+    def setup(eng, st):
+        r = _request_for_handlers()
+        st.env['request'] = r
+
+    def query_get(eng, st, args, kw, node):
+        key = args[0] if args and isinstance(args[0], str) else None
+        if key is None:
+            raise core.Undecided('request.query.get of a computed key')
+        return z3.Const('query_' + key, U)
+
+    def scoped(eng, st, args, kw, node):
+        parts = []
+        for kind, v in template:
+            if kind == 'text':
+                parts.append(v)
+            else:
+                sep, lname = v
+                if lname not in st.env:
+                    raise core.Undecided('statement text uses %s, unbound on this path' % lname)
+                parts.append(sep.join(_concrete_text(x, 'condition') for x in _concrete_list(st.env[lname], lname)))
+        sel = _select_of(''.join(parts), '_query_batch_jobs_for_billing')
+        bound = []
+        for e in (arg_tuple.elts if isinstance(arg_tuple, pyast.Tuple) else [arg_tuple]):
+            if isinstance(e, pyast.Starred):
+                if not isinstance(e.value, pyast.Name) or e.value.id not in st.env:
+                    raise core.Undecided('argument tuple of the listing statement not understood')
+                bound += _concrete_list(st.env[e.value.id], e.value.id)
+            else:
+                bound.append(eng.ev(e, st))
+        i_ = _pinned(sel).get('jobs.batch_id')
+        tabs = [it.name for it in _from_items(sel.from_) if isinstance(it, A.TableRef)]
+        if not tabs or tabs[0] != 'jobs':
+            return z3.BoolVal(False)
+        return eng.equal(bound[i_], st.env['batch_id']) if i_ is not None and i_ < len(bound) else z3.BoolVal(False)
+
+    def setup2(eng, st):
+        setup(eng, st)
+        st.env['the_listing_answers_only_jobs_of_the_checked_batch'] = pyvc.SFunc('the_listing_answers_only_jobs_of_the_checked_batch', scoped)
+
+    return Contract(
+        path=FE, qualname='_query_batch_jobs_for_billing', label='_query_batch_jobs_for_billing[job listing]', fragment=(pyvc._header_text(body[0]), k),
+        extra_inputs={'batch_id': 'int'}, setup=setup2,
+        calls={'request.query.get': query_get, 'int': _int_model},
+        ensures=[('the-listing-answers-only-jobs-of-the-batch-that-was-checked', 'the_listing_answers_only_jobs_of_the_checked_batch()')],
+        raises={'HTTPBadRequest': True, 'ValueError': True},
+        canaries=[('the-listing-is-never-asked', 'False')],
+    ), fn, body[k + 1:]
+
+
+def _db_calls_deep(node, methods):
+    return [n for n in pyast.walk(node) if isinstance(n, pyast.Call) and isinstance(n.func, pyast.Attribute) and n.func.attr in methods]
+
+
+def _sql_template(fn, expr):
+    """the statement text handed to a database call as [('text', str) | ('join', (separator, list name))]: a literal, or a name
+    assigned exactly once in the function from a literal / an f-string whose holes are `'<sep>'.join(<list name>)`"""
+    if isinstance(expr, pyast.Name):
+        asg = [st for st in pyast.walk(fn) if isinstance(st, pyast.Assign) and any(isinstance(t, pyast.Name) and t.id == expr.id for t in st.targets)]
+        stores = [n for n in pyast.walk(fn) if isinstance(n, pyast.Name) and n.id == expr.id and isinstance(n.ctx, pyast.Store)]
+        if len(asg) != 1 or len(stores) != 1:
+            raise core.Undecided('statement text %s is assigned %d times' % (expr.id, len(stores)))
+        expr = asg[0].value
+    if isinstance(expr, pyast.Constant) and isinstance(expr.value, str):
+        return [('text', expr.value)]
+    if not isinstance(expr, pyast.JoinedStr):
+        raise core.Undecided('statement text is neither a literal nor an f-string')
+    out = []
+    for v in expr.values:
+        if isinstance(v, pyast.Constant):
+            out.append(('text', str(v.value)))
+        else:
+            e = v.value
+            if isinstance(e, pyast.Call) and isinstance(e.func, pyast.Attribute) and e.func.attr == 'join' and isinstance(e.func.value, pyast.Constant) and isinstance(e.func.value.value, str) and len(e.args) == 1 and isinstance(e.args[0], pyast.Name) and v.format_spec is None and v.conversion == -1:
+                out.append(('join', (e.func.value.value, e.args[0].id)))
+            else:
+                out.append(('hole', pyast.unparse(e)))
+    return out
+
+
+def batch_scoped_reads(ctx):
+    tree = pyast.parse(core.read_repo(FE))
+    methods = _db_methods()
+    # logs
+    for c, scn in ((job_record_contract(), 'job-log'), (job_tasks_contract(), 'job-log'), (container_log_contract(tree), 'job-log')):
+        c.raises.setdefault('*', True)
+        e = pyvc.Engine(ctx, c)
+        e.replayer = _native(scn)
+        e.run()
+        _strict(ctx, e, e.label)
+        _emit_canaries(ctx, e)
+    for nm in ('_get_job_container_log', 'has_resource_available', 'attempt_id_from_spec'):
+        ctx.under_contract(FE, nm + ' (executed in place inside get_job_container_log)')
+    # closed world of the log chain: who calls what, with which arguments
+    for nm in ('_get_job_container_log_from_worker', '_read_job_container_log_from_cloud_storage'):
+        cs = _calls_of(tree, nm)
+        ctx.add(core.decided('job-log/closed-world/%s-is-called-only-by-_get_job_container_log' % nm, bool(cs) and all(f.name == '_get_job_container_log' for f, _ in cs) and _only_called(tree, nm), repr([f.name for f, _ in cs]), kind='scan'), replay=_native('job-log'))
+    cs = _calls_of(tree, '_get_job_container_log')
+    ctx.add(core.decided('job-log/closed-world/_get_job_container_log-is-called-only-by-get_job_container_log-and-_get_job_log', sorted({f.name for f, _ in cs}) == ['_get_job_log', 'get_job_container_log'] and len(cs) == 2 and _only_called(tree, '_get_job_container_log'), repr([f.name for f, _ in cs]), kind='scan'), replay=_native('job-log'))
+    # _get_job_log: every container comes from job_tasks_from_spec(record) of the record read for (batch_id, job_id)
+    gl = pyvc.find_function(tree, '_get_job_log')
+    texts = [pyast.unparse(st) for st in gl.body]
+    inner = [n for f, n in cs if f.name == '_get_job_log']
+    comp = [n for n in pyast.walk(gl) if isinstance(n, (pyast.ListComp, pyast.GeneratorExp)) and inner and any(x is inner[0] for x in pyast.walk(n))]
+    ok = (len(inner) == 1 and len(comp) == 1 and len(comp[0].generators) == 1 and not comp[0].generators[0].ifs and isinstance(comp[0].generators[0].target, pyast.Name)
+          and isinstance(comp[0].generators[0].iter, pyast.Name) and _arg_names(inner[0]) == ['app', 'batch_id', 'job_id', comp[0].generators[0].target.id, 'record']
+          and 'record = await _get_job_record(app, batch_id, job_id)' in texts and '%s = job_tasks_from_spec(record)' % comp[0].generators[0].iter.id in texts
+          and [a.arg for a in gl.args.args] == ['app', 'batch_id', 'job_id'] and len([n for n in pyast.walk(gl) if isinstance(n, pyast.Name) and n.id in ('app', 'batch_id', 'job_id', 'record', comp[0].generators[0].iter.id) and isinstance(n.ctx, pyast.Store)]) == 2)
+    ctx.add(core.decided('job-log/_get_job_log/reads-the-logs-of-exactly-the-tasks-of-the-record-of-its-batch-and-job', ok, repr(texts)[:300], kind='scan'), replay=_native('job-log'))
+    # callers hand over the checked batch id: get_job_container_log(request, batch_id) / _get_job_log(<app>, batch_id, job_id) from
+    # batch-scoped route handlers (whose batch_id parameter is the checked one and is never rebound: route-table layer)
+    routes = {fn.name: (v, p) for v, p, fn in enumerate_routes(tree)}
+    funcs = {f.name: f for f in tree.body if isinstance(f, (pyast.FunctionDef, pyast.AsyncFunctionDef))}
+
+    def handed(nm, seen):
+        """problems with the claim: every call of `nm` passes, in the position of nm's batch_id parameter, the (never rebound)
+        batch_id parameter of a batch-scoped route handler, or of a helper of which the same holds (transitively)"""
+        if nm in seen:
+            return []
+        seen.add(nm)
+        params = [a.arg for a in funcs[nm].args.posonlyargs + funcs[nm].args.args]
+        if 'batch_id' not in params:
+            return ['%s has no batch_id parameter' % nm]
+        pos = params.index('batch_id')
+        cs_ = _calls_of(tree, nm)
+        bad = [] if cs_ and _only_called(tree, nm) else ['%s is referenced other than by calls, or never called' % nm]
+        for f, n in cs_:
+            fparams = [a.arg for a in f.args.posonlyargs + f.args.args]
+            a = n.args[pos] if len(n.args) > pos else next((k.value for k in n.keywords if k.arg == 'batch_id'), None)
+            if not (isinstance(a, pyast.Name) and a.id == 'batch_id' and 'batch_id' in fparams and _never_rebound(f, ('batch_id',))):
+                bad.append('%s line %d passes %s' % (f.name, n.lineno, pyast.unparse(a) if a is not None else None))
+            elif f.name in routes:
+                if classify(*routes[f.name]) != ['batch-scoped']:
+                    bad.append('%s line %d: route is not batch-scoped' % (f.name, n.lineno))
+            else:
+                bad += handed(f.name, seen)
+        return bad
+
+    for nm in ('get_job_container_log', '_get_job_log', '_query_batch_jobs_for_billing', '_get_job_record'):
+        bad = handed(nm, set()) if nm in funcs else ['not found']
+        ctx.add(core.decided('batch-scoped-reads/%s/is-only-ever-handed-the-batch-id-that-was-checked' % nm, not bad, repr(bad), kind='scan'))
+    # per-batch billing listing
+    c, fn, rest = billing_jobs_query_contract(tree)
+    c.raises.setdefault('*', True)
+    e = pyvc.Engine(ctx, c)
+    e.replayer = _native('billing-jobs')
+    e.run()
+    _strict(ctx, e, e.label)
+    _emit_canaries(ctx, e)
+    # the follow-up statements of the same function (attributes, resources of the jobs just listed): text with holes
+    later = [cl for st in rest for cl in _db_calls_deep(st, methods)]
+    ctx.add(core.decided('_query_batch_jobs_for_billing/vacuity/follow-up-statements-found', len(later) >= 1 and len(_db_calls_deep(fn, methods)) == len(later) + 1, '%d follow-up statements' % len(later), kind='vacuity'))
+    for i_, cl in enumerate(later):
+        label = '_query_batch_jobs_for_billing/follow-up-statement#%d' % (i_ + 1)
+        try:
+            tpl = _sql_template(fn, cl.args[0])
+            text = ''.join(v if kind == 'text' else '{%s}' % (v if kind == 'hole' else 'joined') for kind, v in tpl)
+            sel = _select_of(text, label)
+            pins = _pinned(sel)
+            i0 = next((pins[k_] for k_ in pins if k_.split('.')[-1] == 'batch_id'), None)
+            at = cl.args[1] if len(cl.args) > 1 else None
+            first = at.elts[:i0 + 1] if isinstance(at, pyast.Tuple) and i0 is not None else []
+            ok = i0 is not None and len(first) == i0 + 1 and not any(isinstance(x, pyast.Starred) for x in first) and isinstance(first[i0], pyast.Name) and first[i0].id == 'batch_id' and _never_rebound(fn, ('batch_id',))
+            holes_before = [n for n in sel.walk() if isinstance(n, A.Hole)]
+            detail = 'pinned=%r args=%s' % (pins, pyast.unparse(at) if at is not None else None)
+        except core.Undecided as ex:
+            ok, detail = False, 'not understood: %s' % ex
+        ctx.add(core.decided(label + '/answers-only-rows-of-the-batch-that-was-checked', ok, detail, kind='scan'), replay=_native('billing-jobs'))
+    # the conditions spliced into the follow-up statements are closed under AND
+    for asg in [st for st in pyast.walk(fn) if isinstance(st, pyast.Assign) and len(st.targets) == 1 and isinstance(st.targets[0], pyast.Name) and st.targets[0].id == 'job_condition']:
+        v = asg.value
+        text = v.value if isinstance(v, pyast.Constant) else ''.join(x.value if isinstance(x, pyast.Constant) else '%s' for x in v.values) if isinstance(v, pyast.JoinedStr) else None
+        ok = False
+        if text is not None:
+            try:
+                cj = _conjuncts(sqlparse.parse_expr('sentinel_a = 1 AND ' + text + ' AND sentinel_b = 2'), [])
+                ok = len(cj) == 3
+            except Exception:  # pylint: disable=broad-except
+                ok = False
+        ctx.add(core.decided('_query_batch_jobs_for_billing/job_condition-line-%d/cannot-widen-the-batch-condition' % asg.lineno, ok, repr(text), kind='scan'))
+
+
+# ---------------------------------------------------------------------------------------------------------------------
 # (3) route table.  The policy is data: classes with a path/verb predicate (derived from the property text, not from the
 # decorators found) and the protections a class accepts.
 
@@ -1489,6 +2012,8 @@ def build(ctx):
     queries(ctx)
     owner_filters(ctx)
     ownership_is_immutable(ctx)
+    billing_listings(ctx)
+    batch_scoped_reads(ctx)
     route_table(ctx)
     listing_scope(ctx)
     # failing obligations without a replayer of their own: every scenario except the token replay (which has its own obligations)
@@ -1500,16 +2025,42 @@ def build(ctx):
     ctx.assume('strings are compared for equality only and are represented by integer codes on the Python and on the SQL side; MySQL collations (case-insensitive `user` / `billing_project` key columns) are not modelled, user_cs is taken as the case-sensitive identity')
     ctx.assume('SQL semantics (three-valued logic, LEFT JOIN, NULL comparisons) as encoded in vc/sqlvc.py; schema (columns, keys, nullability) from the replayed migrations; the reads of one request see one database state, and a transaction decorated with transaction(db) is rolled back when its body raises (C27)')
     ctx.assume('composition is by call name: a route handler is checked against the contract of the helper it calls (_create_jobs, _create_job_groups, _create_batch_update, _create_batch return normally only behind their gate - each proved on the real helper); after the gate of _create_jobs / _create_job_groups.insert the rest of the function body is dominated by the gate (prefix fragment)')
+    ctx.assume('userdata[\'username\'] is text (gear.auth.UserData) and never None: `username in <str literal>` is read as Python\'s substring test, and the billing-project listing helpers of batch/utils.py (query_billing_projects_with_cost / _without_cost, not under contract) restrict their answer to the projects of `user` exactly when a non-empty user name is passed')
+    ctx.assume('job logs: the worker URL and the log-store path are built by _get_job_container_log_from_worker / FileStore.read_log_file from exactly the batch id, job id and container name they are handed (their bodies are not under contract); BatchFormatVersion.get_spec_has_input_files / _output_files are oracles; a function executed in place sees no local of its caller (checked on the AST)')
+    ctx.assume('a top-level conjunct `<column> = %s` of the WHERE clause of a query block restricts every answered row to the bound value (conjunct analysis on the parse of the real statement text; joins and sub-selects of these statements are otherwise not interpreted)')
     ctx.undecided('listing endpoints: the scope condition and the closedness of every search-term condition are decided (listing/...); the joins and sub-selects of the listing queries themselves, and the billing pages, are not under contract')
-    ctx.undecided('inside batch-scoped handlers only the batch id is tracked (handed over by the wrapper, never rebound); job / job-group / attempt ids are keyed by it in the queries, which are not under contract')
+    ctx.undecided('inside batch-scoped handlers the batch id is tracked (handed over by the wrapper, never rebound); under contract are the job-record read, the job-log chain and the per-batch billing job listing (batch-scoped-reads/..., job-log/..., _query_batch_jobs_for_billing/...); the remaining queries of batch-scoped handlers (job groups, attempts, resource usage, cancel / delete procedures) are keyed by the batch id in their text but are not under contract')
     ctx.undecided('routes of the batch driver, the auth service itself (sessions, tokens, userinfo), TrustedSingleTenantAuthenticator (its userdata has no state key: the active-state test raises KeyError, i.e. every request fails closed)')
     ctx.undecided('nothing-changes for a rejected caller is decided for the statements of the front end (no write before / without the gate); effects of middlewares and of the asynchronous driver notification are not modelled')
+
+
+NATIVE_SCENARIOS = ('wrappers', 'membership', 'owner', 'routes', 'billing-listing', 'job-log', 'billing-jobs')
+
+
+def native_witness(ctx):
+    """fallback of vc.check when the contracts no longer fit a changed source (exit 2 / 3): the concrete scenarios of the native
+    script, each a request replayed on the real code under /venv/bin/python; only a confirmed failing input is reported"""
+    classes = list(ROUTE_CLASSES)
+    if not classes:
+        try:
+            for verb, path, fn in enumerate_routes(pyast.parse(core.read_repo(FE))):
+                if path is not None:
+                    classes.append([verb, path, classify(verb, path)[0]])
+        except Exception:  # pylint: disable=broad-except
+            classes = []
+    for scn in NATIVE_SCENARIOS:
+        if scn == 'routes' and not classes:
+            continue
+        r = core.run_native(open(NATIVE).read(), {'scenario': scn, 'routes': classes})
+        if isinstance(r, dict) and r.get('confirmed'):
+            return r
+    return {'confirmed': False}
 
 
 def thorough(ctx):
     """concrete cross-validation: the scenarios of the native script on the real code must agree with the contracts (no caller
     outside the property's allowance gets through); the token-replay scenario is the subject of its own obligations"""
-    for scn in ('wrappers', 'membership', 'owner', 'routes'):
+    for scn in NATIVE_SCENARIOS:
         r = core.run_native(open(NATIVE).read(), {'scenario': scn, 'routes': ROUTE_CLASSES})
         ok = isinstance(r, dict) and r.get('confirmed') is False and 'error' not in r
         ctx.add(core.decided('native/%s/the-real-code-agrees-with-the-contracts-on-the-concrete-scenarios' % scn, ok, json_dumps(r)[:400], kind='validation'))
